@@ -181,7 +181,7 @@ func (c *Collection) Remove(id string) error {
 func (c *Collection) Update(id string, nu *linkedca.Admin) (*linkedca.Admin, error) {
 	adm, ok := c.LoadByID(id)
 	if !ok {
-		return nil, admin.NewError(admin.ErrorNotFoundType, "admin %s not found", adm.Id)
+		return nil, admin.NewError(admin.ErrorNotFoundType, "admin %s not found", id)
 	}
 	if adm.Type == nu.Type {
 		return adm, nil
